@@ -42,7 +42,8 @@ def dec_params(table, compat=False, maxlabel=99, known=None, gen=True, alphabet=
         lines += ['RawChars == {"["}', "RawLen == 1", "RawFirst == RawChars"]
     if trace:
         lines.append("Tr == JsonDeserialize(IOEnv.TRACE_FILE)")
-        lines.append("KnownSyms == UNION {{Tr[i].inp[j] : j \\in 1..Len(Tr[i].inp)} : i \\in 1..Len(Tr)}")
+        lines.append("KnownSyms == UNION {{Tr[i].inp[j] : j \\in 1..Len(Tr[i].inp)} : "
+                     "i \\in {k \\in 1..Len(Tr) : \"inp\" \\in DOMAIN Tr[k]}}")
     else:
         lines.append("Tr == <<>>")
         lines.append("KnownSyms == %s" % tla_set(known if known is not None else alphabet))
@@ -90,7 +91,7 @@ def run_decoder_tlc(name, alphabet, table, maxlen, compat=False, maxlabel=99, em
                     extra_defs="", heap="2g", fastjit=False, raw=None):
     """Run one configuration, partitioned over parallel single-worker TLC processes.
     Returns (list of TlcResult, vectors)."""
-    nparts = nparts or min(NCPU, len(alphabet))
+    nparts = nparts or min(NCPU, len(alphabet) if raw is None else len(raw[0]))
     if coverage:
         nparts = 1
     work = scratch("dec_%s_" % name)
@@ -281,13 +282,15 @@ def validate_decoder_trace(name, records, table, compat=False, maxlabel=99, npro
     nprocs = max(1, min(nprocs, len(records)))
     work = scratch("trace_%s_" % name)
     # balance chunks by total token count
-    order = sorted(range(len(records)), key=lambda i: -len(records[i]["inp"]))
+    def size(r):
+        return len(r["inp"]) if "inp" in r else len(r["raw"]) // 3
+    order = sorted(range(len(records)), key=lambda i: -size(records[i]))
     chunks = [[] for _ in range(nprocs)]
     loads = [0] * nprocs
     for i in order:
         k = loads.index(min(loads))
         chunks[k].append(i)
-        loads[k] += len(records[i]["inp"]) + 5
+        loads[k] += size(records[i]) + 5
     jobs = []
     for ci, idxs in enumerate(chunks):
         if not idxs:
@@ -400,3 +403,27 @@ def impl_tables_module():
         names.append(what)
     out += ["VARIABLE x", "Init == x = 0", "Next == UNCHANGED x", "Spec == Init /\\ [][Next]_x", "===="]
     return "\n".join(out) + "\n", names
+
+
+# --------------------------------------------------------------------------
+# table enumeration (TableSpace.tla)
+# --------------------------------------------------------------------------
+
+def run_table_space(keypool, cappool, maxkeys, timeout=1200):
+    work = scratch("tables_")
+    with open(os.path.join(work, "TableParams.tla"), "w") as f:
+        f.write("---- MODULE TableParams ----\nEXTENDS Integers\nKeyPool == %s\nCapPool == {%s}\nMaxKeys == %d\n====\n"
+                % (tla_set(keypool), ", ".join(str(c) for c in cappool), maxkeys))
+    with open(os.path.join(work, "MC_tables.tla"), "w") as f:
+        f.write("---- MODULE MC_tables ----\nEXTENDS TableSpace\n====\n")
+    cfg = ("SPECIFICATION Spec\nINVARIANT AlphabetInGrammar\nINVARIANT AlphabetContents\nINVARIANT TableEmit\n"
+           "CHECK_DEADLOCK FALSE\n")
+    r = run_tlc(work, "MC_tables", cfg, workers=NCPU, timeout=timeout, heap="6g",
+                stdout_path=os.path.join(work, "out.txt"))
+    tlc_ok(r, "tables")
+    vectors = []
+    for v in r.printed:
+        vectors.append({"table": v["table"] if isinstance(v["table"], dict) else {}, "valid": v["valid"],
+                        "alphabet": list(v["alphabet"])})
+    r.printed = []
+    return r, vectors
